@@ -322,6 +322,49 @@ func c18Requests(thorough bool) map[string][]rreq {
 			}
 		}
 	}
+	// both a registered raw_suite and a (different but valid) structured suite: the named suite wins
+	for i, n := range names {
+		rs, ok := ref.ParseSuite(n)
+		if !ok || i%4 != 0 {
+			continue
+		}
+		sh := shapeOfRef(rs)
+		other := shape{Hash: (sh.Hash + 1) % 3, Digits: 4 + (sh.Digits+1)%7, Q: true, QF: 1 + i%6}
+		same := sh
+		same.Text = ""
+		for k, st := range []shape{other, same} {
+			in := ocraInputFor(sh, i+k)
+			for f, v := range ocraInputFor(st, i+k) {
+				if _, has := in[f]; !has {
+					in[f] = v
+				}
+			}
+			rin := oin{}
+			for f, v := range in {
+				b, _ := hex.DecodeString(v.(string))
+				switch f {
+				case "counter_hex":
+					rin.Counter = b
+				case "challenge_hex":
+					rin.Challenge = b
+				case "password_hex":
+					rin.Password = b
+				case "session_info_hex":
+					rin.Session = b
+				case "timestamp_hex":
+					rin.Timestamp = b
+				}
+			}
+			og = append(og, rreq{Method: "POST", Path: "/ocra/generate", Fields: map[string]any{"secret": u, "raw_suite": n, "suite": structuredSuite(st), "input": in}})
+			if ref.Admit(rs, rin.ref()) {
+				ov = append(ov, rreq{Method: "POST", Path: "/ocra/validate", Fields: map[string]any{"secret": u, "raw_suite": n, "suite": structuredSuite(st), "input": in, "code": ref.OCRA(restKey, rs, rin.ref())}})
+				st2 := st.ref()
+				if ref.Usable(st2) && ref.Admit(st2, rin.ref()) {
+					ov = append(ov, rreq{Method: "POST", Path: "/ocra/validate", Fields: map[string]any{"secret": u, "raw_suite": n, "suite": structuredSuite(st), "input": in, "code": ref.OCRA(restKey, st2, rin.ref())}})
+				}
+			}
+		}
+	}
 	// failing but well-formed: unknown raw suite, unusable structured suite, inadmissible input, bad hex, missing input
 	bad := shape{Hash: 0, Digits: 3, Q: true, QF: 1}
 	good := shape{Hash: 1, Digits: 8, C: true, Q: true, QF: 2}
@@ -590,7 +633,12 @@ func c18(r *ev.Run) {
 	}
 	// (iv) the class list against the real binary: sequentially on keep-alive and fresh connections, then concurrently
 	srv, err := startServer()
-	if err != nil {
+	if r.Violations() > 0 {
+		if err == nil {
+			srv.stop()
+		}
+		r.NotExhaustive("loopback pass skipped: the in-process exploration already reported violations")
+	} else if err != nil {
 		r.NotExhaustive("real server binary unavailable: " + err.Error())
 	} else {
 		defer srv.stop()
